@@ -802,6 +802,44 @@ func (c *Ctx) SelectConst(idx *Term, table []*Term) *Term {
 	return r
 }
 
+// Rebuild reconstructs t with new arguments through the simplifying
+// constructors.
+func (c *Ctx) Rebuild(t *Term, as []*Term) *Term {
+	switch t.Op {
+	case ONot:
+		return c.Not(as[0])
+	case OAnd:
+		return c.And(as...)
+	case OOr:
+		return c.Or(as...)
+	case OIte:
+		return c.Ite(as[0], as[1], as[2])
+	case OEq:
+		return c.Eq(as[0], as[1])
+	case OAdd, OSub, OMul, OUDiv, OURem, OSDiv, OSRem, OBAnd, OBOr, OBXor, OShl, OLShr, OAShr:
+		return c.bin(t.Op, as[0], as[1])
+	case ONeg:
+		return c.Neg(as[0])
+	case OBNot:
+		return c.BNot(as[0])
+	case OULt, OULe, OSLt, OSLe:
+		return c.cmp(t.Op, as[0], as[1])
+	case OConcat:
+		return c.Concat(as[0], as[1])
+	case OExtract:
+		return c.Extract(as[0], t.I, t.J)
+	case OZExt:
+		return c.ZExt(as[0], t.Sort.W)
+	case OSExt:
+		return c.SExt(as[0], t.Sort.W)
+	case OILt:
+		return c.ILt(as[0], as[1])
+	case OILe:
+		return c.ILe(as[0], as[1])
+	}
+	return c.mk(t.Op, t.Sort, as, t.U, t.Name, t.I, t.J)
+}
+
 // ---- floats ----
 
 const CanonNaN = 0x7FF8000000000001
